@@ -552,7 +552,10 @@ func (t Table) MigrationColumnUp() ([]string, map[string]struct{}) {
 		return strSqls, dropCols
 
 	case MigrateAddAction:
-		maxIdent := len(t.Columns[0].Name)
+		maxIdent := 0
+		if len(t.Columns) > 0 {
+			maxIdent = len(t.Columns[0].Name)
+		}
 		for i := range t.Columns {
 			if t.Columns[i].Action == MigrateAddAction || t.Columns[i].Action == MigrateModifyAction || t.Columns[i].Action == MigrateRenameAction {
 				if len(t.Columns[i].Name) > maxIdent {
